@@ -1,1 +1,359 @@
-// ---- lemmas: read_partition (C02) ----
+// ---- lemmas: read_partition (C02; below-earliest clause of C14) ----
+// All proved. Hints of contracts.vspec call them (smoke_lemmas = true).
+
+// ---- seq_keep (same statements as in unit read_segment) ----
+pub proof fn lemma_keep_add(a: Seq<RetainedMessage>, b: Seq<RetainedMessage>, f: spec_fn(RetainedMessage) -> bool)
+    ensures seq_keep(a + b, f) == seq_keep(a, f) + seq_keep(b, f),
+    decreases b.len(),
+{
+    if b.len() == 0 {
+        assert(a + b =~= a);
+        assert(seq_keep(a, f) + seq_keep(b, f) =~= seq_keep(a, f));
+    } else {
+        lemma_keep_add(a, b.drop_last(), f);
+        assert((a + b).drop_last() =~= a + b.drop_last());
+        assert((a + b).last() == b.last());
+        if f(b.last()) {
+            assert(seq_keep(a, f) + seq_keep(b.drop_last(), f).push(b.last()) =~= (seq_keep(a, f) + seq_keep(b.drop_last(), f)).push(b.last()));
+        }
+    }
+}
+// the kept elements are exactly those of the index window [a, b)
+pub proof fn lemma_keep_window(s: Seq<RetainedMessage>, f: spec_fn(RetainedMessage) -> bool, a: int, b: int)
+    requires
+        0 <= a <= b <= s.len(),
+        forall|i: int| 0 <= i < s.len() ==> (f(#[trigger] s[i]) <==> a <= i < b),
+    ensures seq_keep(s, f) == s.subrange(a, b),
+    decreases s.len(),
+{
+    if s.len() == 0 {
+        assert(s.subrange(a, b) =~= Seq::<RetainedMessage>::empty());
+    } else {
+        let n = s.len() - 1;
+        let t = s.drop_last();
+        assert(forall|i: int| 0 <= i < t.len() ==> t[i] == s[i]);
+        if b == s.len() {
+            if a == b {
+                lemma_keep_window(t, f, n, n);
+                assert(!f(s[n]));
+                assert(s.subrange(a, b) =~= t.subrange(n, n));
+            } else {
+                lemma_keep_window(t, f, a, n);
+                assert(f(s[n]));
+                assert(s.subrange(a, b) =~= t.subrange(a, n).push(s.last()));
+            }
+        } else {
+            lemma_keep_window(t, f, a, b);
+            assert(!f(s[n]));
+            assert(s.subrange(a, b) =~= t.subrange(a, b));
+        }
+    }
+}
+// the same for vstd's Seq::filter (used by the R8 schema of `iter().filter().collect()`)
+pub proof fn lemma_filter_window<T>(s: Seq<T>, f: spec_fn(T) -> bool, a: int, b: int)
+    requires
+        0 <= a <= b <= s.len(),
+        forall|i: int| 0 <= i < s.len() ==> (f(#[trigger] s[i]) <==> a <= i < b),
+    ensures s.filter(f) == s.subrange(a, b),
+    decreases s.len(),
+{
+    reveal_with_fuel(Seq::filter, 2);
+    if s.len() == 0 {
+        assert(s.subrange(a, b) =~= Seq::<T>::empty());
+        assert(s.filter(f) =~= Seq::<T>::empty());
+    } else {
+        let n = s.len() - 1;
+        let t = s.drop_last();
+        assert(forall|i: int| 0 <= i < t.len() ==> t[i] == s[i]);
+        if b == s.len() {
+            if a == b {
+                lemma_filter_window(t, f, n, n);
+                assert(!f(s[n]));
+                assert(s.subrange(a, b) =~= t.subrange(n, n));
+            } else {
+                lemma_filter_window(t, f, a, n);
+                assert(f(s[n]));
+                assert(s.subrange(a, b) =~= t.subrange(a, n).push(s.last()));
+            }
+        } else {
+            lemma_filter_window(t, f, a, b);
+            assert(!f(s[n]));
+            assert(s.subrange(a, b) =~= t.subrange(a, b));
+        }
+    }
+}
+
+// ---- the oracle on a contiguous run is an index window ----
+pub proof fn lemma_slice_window(l: Seq<RetainedMessage>, first: int, lo: int, hi: int)
+    requires contig(l, first),
+    ensures slice_of(l, lo, hi) == window(l, first, lo, hi),
+{
+    let n = l.len() as int;
+    let a = clip(lo - first, n);
+    let b0 = clip(hi + 1 - first, n);
+    let b = if a <= b0 { b0 } else { a };
+    assert forall|i: int| 0 <= i < n implies (off_in(lo, hi)(#[trigger] l[i]) <==> a <= i < b) by {
+        assert(l[i].offset == first + i);
+    }
+    lemma_keep_window(l, off_in(lo, hi), a, b);
+    if a > b0 { assert(l.subrange(a, a) =~= Seq::<RetainedMessage>::empty()); }
+}
+// label: C02.oracle.complete
+// Reading of the oracle as the statement words it: on a gap-free log the slice has no holes, no repeats, no foreign
+// messages and is not shorter than what is available in the range.
+pub proof fn c02_slice_is_exact(l: Seq<RetainedMessage>, first: int, lo: int, hi: int)
+    requires contig(l, first), first <= lo <= hi,
+    ensures
+        // consecutive offsets starting at lo (no holes, no repeats, offset order), every element is the log's message of that offset
+        forall|k: int| 0 <= k < slice_of(l, lo, hi).len() ==> (#[trigger] slice_of(l, lo, hi)[k]) == l[lo - first + k]
+            && slice_of(l, lo, hi)[k].offset == lo + k,
+        // as many as are available: min(hi, last offset) - lo + 1
+        slice_of(l, lo, hi).len() == (if lo - first >= l.len() { 0 } else if hi + 1 - first >= l.len() { l.len() - (lo - first) } else { hi - lo + 1 }),
+{
+    lemma_slice_window(l, first, lo, hi);
+}
+
+// ---- shape of the log: concatenation of consecutive contiguous segments ----
+pub open spec fn seg_end(segs: Seq<Segment>, i: int) -> int { segs[i].start_offset + seg_all(&segs[i]).len() }
+
+pub proof fn lemma_log_split(segs: Seq<Segment>, lo: int, hi: int, k: int)
+    requires 0 <= lo <= hi <= segs.len(), 0 <= k <= hi - lo,
+    ensures log_upto(segs, lo + k) == log_upto(segs, lo) + log_upto(segs.subrange(lo, hi), k),
+    decreases k,
+{
+    if k == 0 {
+        assert(log_upto(segs, lo) + Seq::<RetainedMessage>::empty() =~= log_upto(segs, lo));
+    } else {
+        lemma_log_split(segs, lo, hi, k - 1);
+        assert(segs.subrange(lo, hi)[k - 1] == segs[lo + k - 1]);
+        let a = log_upto(segs, lo); let b = log_upto(segs.subrange(lo, hi), k - 1); let c = seg_all(&segs[lo + k - 1]);
+        assert((a + b) + c =~= a + (b + c));
+    }
+}
+pub proof fn lemma_sub_wf(segs: Seq<Segment>, lo: int, hi: int)
+    requires segs_wf(segs), 0 <= lo <= hi <= segs.len(),
+    ensures segs_wf(segs.subrange(lo, hi)),
+{
+    let d = segs.subrange(lo, hi);
+    assert forall|i: int| 0 <= i < d.len() implies contig(seg_all(#[trigger] &d[i]), d[i].start_offset as int) by {
+        assert(d[i] == segs[lo + i]);
+    }
+    assert forall|i: int| 0 <= i < d.len() - 1 implies seg_all(&d[i]).len() > 0
+            && (#[trigger] d[i]).start_offset + seg_all(&d[i]).len() == d[i + 1].start_offset by {
+        assert(d[i] == segs[lo + i] && d[i + 1] == segs[lo + i + 1]);
+    }
+}
+pub proof fn lemma_log_shape(segs: Seq<Segment>, n: int)
+    requires segs_wf(segs), 0 <= n <= segs.len(), segs.len() > 0,
+    ensures
+        contig(log_upto(segs, n), segs[0].start_offset as int),
+        log_upto(segs, n).len() == (if n == 0 { 0 } else { seg_end(segs, n - 1) - segs[0].start_offset }),
+        0 < n < segs.len() ==> log_upto(segs, n).len() == segs[n].start_offset - segs[0].start_offset,
+    decreases n,
+{
+    if n > 0 {
+        lemma_log_shape(segs, n - 1);
+        let f = segs[0].start_offset as int;
+        let a = log_upto(segs, n - 1); let b = seg_all(&segs[n - 1]);
+        assert(contig(b, segs[n - 1].start_offset as int));
+        if n - 1 > 0 { assert(seg_end(segs, n - 2) == segs[n - 1].start_offset); }
+        assert(a.len() == segs[n - 1].start_offset - f);
+        assert forall|i: int| 0 <= i < (a + b).len() implies (#[trigger] (a + b)[i]).offset == f + i by {
+            if i < a.len() { assert((a + b)[i] == a[i]); } else { assert((a + b)[i] == b[i - a.len()]); }
+        }
+        if n < segs.len() { assert(seg_end(segs, n - 1) == segs[n].start_offset); }
+    }
+}
+pub proof fn lemma_sorted_ij(segs: Seq<Segment>, i: int, j: int)
+    requires segs_wf(segs), 0 <= i < j < segs.len(),
+    ensures segs[i].start_offset < segs[j].start_offset,
+    decreases j - i,
+{
+    assert(seg_all(&segs[j - 1]).len() > 0 && segs[j - 1].start_offset + seg_all(&segs[j - 1]).len() == segs[j].start_offset);
+    if i < j - 1 { lemma_sorted_ij(segs, i, j - 1); }
+}
+pub proof fn lemma_sorted(segs: Seq<Segment>)
+    requires segs_wf(segs),
+    ensures sorted_by_start(segs),
+{
+    assert forall|i: int, j: int| 0 <= i < j < segs.len() implies segs[i].start_offset < segs[j].start_offset by { lemma_sorted_ij(segs, i, j); }
+}
+// the messages of the segments lo..hi are the corresponding index range of the whole log
+pub proof fn lemma_log_range(segs: Seq<Segment>, lo: int, hi: int)
+    requires segs_wf(segs), 0 <= lo < hi <= segs.len(),
+    ensures ({
+        let l = log_upto(segs, segs.len() as int); let f = segs[0].start_offset as int;
+        let dl = log_upto(segs.subrange(lo, hi), hi - lo);
+        &&& contig(l, f) && l.len() == seg_end(segs, segs.len() - 1) - f
+        &&& contig(dl, segs[lo].start_offset as int) && dl.len() == seg_end(segs, hi - 1) - segs[lo].start_offset
+        &&& f <= segs[lo].start_offset && segs[lo].start_offset - f + dl.len() <= l.len()
+        &&& dl == l.subrange(segs[lo].start_offset - f, segs[lo].start_offset - f + dl.len())
+    }),
+{
+    let n = segs.len() as int;
+    let l = log_upto(segs, n); let f = segs[0].start_offset as int;
+    let d = segs.subrange(lo, hi);
+    let dl = log_upto(d, hi - lo);
+    lemma_log_shape(segs, n); lemma_log_shape(segs, lo); lemma_log_shape(segs, hi);
+    lemma_sub_wf(segs, lo, hi);
+    lemma_log_shape(d, hi - lo);
+    assert(d[0] == segs[lo] && d[hi - lo - 1] == segs[hi - 1]);
+    lemma_log_split(segs, lo, hi, hi - lo);          // log_upto(hi) == log_upto(lo) + dl
+    lemma_log_split(segs, hi, n, n - hi);            // l == log_upto(hi) + rest
+    let pre = log_upto(segs, lo); let rest = log_upto(segs.subrange(hi, n), n - hi);
+    assert(l == (pre + dl) + rest);
+    assert(pre.len() == segs[lo].start_offset - f);
+    assert(dl =~= l.subrange(pre.len() as int, pre.len() + dl.len()));
+}
+
+// ---- consequences of read_wf ----
+pub proof fn lemma_log_facts(p: &Partition)
+    requires read_wf(p), p.segments@.len() > 0,
+    ensures
+        contig(log(p), first_retained(p)),
+        log(p).len() == next_offset(p) - first_retained(p),
+        last_seg(p).current_offset >= last_seg(p).start_offset,
+        last_seg(p).current_offset >= p.current_offset,
+        last_seg(p).current_offset <= p.current_offset + 1,
+        log(p).len() > 0 ==> p.should_increment_offset && log(p).last().offset == p.current_offset,
+        sorted_by_start(p.segments@),
+{
+    let segs = p.segments@; let n = segs.len() as int;
+    lemma_log_shape(segs, n);
+    lemma_sorted(segs);
+    let a = seg_all(last_seg(p));
+    if a.len() > 0 { assert(a[a.len() - 1].offset == last_seg(p).start_offset + a.len() - 1); }
+    if log(p).len() > 0 { assert(log(p)[log(p).len() - 1].offset == first_retained(p) + log(p).len() - 1); }
+}
+// the cache, when it holds anything, is a contiguous run ending at the current offset and starting inside the log
+pub proof fn lemma_cache_facts(p: &Partition)
+    requires read_wf(p), cache_msgs(p).len() > 0,
+    ensures
+        p.segments@.len() > 0,
+        contig(cache_msgs(p), cache_msgs(p)[0].offset as int),
+        cache_msgs(p)[0].offset + cache_msgs(p).len() == p.current_offset + 1,
+        cache_msgs(p)[0].offset >= first_retained(p),
+        cache_msgs(p)[0].offset - first_retained(p) == log(p).len() - cache_msgs(p).len(),
+{
+    if p.segments@.len() == 0 { assert(log(p).len() == 0); }
+    lemma_log_facts(p);
+    let l = log(p); let c = cache_msgs(p); let k = l.len() - c.len();
+    assert forall|i: int| 0 <= i < c.len() implies (#[trigger] c[i]).offset == c[0].offset + i by {
+        assert(c[i] == l[k + i]); assert(c[0] == l[k]);
+    }
+    assert(c[0] == l[k]);
+}
+// [C02.cache]: what the cache path returns for a hit — slice_of(cache, start, end) — is the slice of the log
+pub proof fn lemma_cache_hit(p: &Partition, start: int, end: int)
+    requires read_wf(p), cache_msgs(p).len() > 0, cache_msgs(p)[0].offset <= start <= end <= p.current_offset,
+    ensures slice_of(cache_msgs(p), start, end) == slice_of(log(p), start, end), start >= first_retained(p),
+{
+    lemma_cache_facts(p); lemma_log_facts(p);
+    let l = log(p); let c = cache_msgs(p); let k = l.len() - c.len();
+    lemma_slice_window(c, c[0].offset as int, start, end);
+    lemma_slice_window(l, first_retained(p), start, end);
+    assert(window(c, c[0].offset as int, start, end) =~= window(l, first_retained(p), start, end));
+}
+// clamping the end of the range to the newest offset does not change the slice
+pub proof fn lemma_end_clamp(p: &Partition, start: int, count: int, end: int)
+    requires
+        read_wf(p), p.segments@.len() > 0, count >= 1,
+        end == (if start + count - 1 > last_seg(p).current_offset { last_seg(p).current_offset as int } else { start + count - 1 }),
+    ensures slice_of(log(p), start, end) == slice_of(log(p), start, start + count - 1),
+{
+    lemma_log_facts(p);
+    lemma_slice_window(log(p), first_retained(p), start, end);
+    lemma_slice_window(log(p), first_retained(p), start, start + count - 1);
+}
+// a start beyond the current offset, or an empty partition: nothing to return
+pub proof fn lemma_beyond(p: &Partition, start: int, hi: int)
+    requires read_wf(p), p.segments@.len() == 0 || start > p.current_offset,
+    ensures slice_of(log(p), start, hi) == Seq::<RetainedMessage>::empty(),
+        start < first_retained(p) ==> log(p).len() == 0,
+{
+    if p.segments@.len() > 0 {
+        lemma_log_facts(p);
+        lemma_slice_window(log(p), first_retained(p), start, hi);
+    }
+}
+
+// ---- the segment path ----
+// no segment's range intersects [start, end]: the requested range holds no retained message
+pub proof fn lemma_no_hit(p: &Partition, start: int, count: int, end: int)
+    requires
+        read_wf(p), p.segments@.len() > 0, count >= 1, start <= p.current_offset, start < first_retained(p),
+        end == (if start + count - 1 > last_seg(p).current_offset { last_seg(p).current_offset as int } else { start + count - 1 }),
+        forall|i: int| 0 <= i < p.segments@.len() ==> !seg_hits(p.segments@, i, start, end),
+    ensures slice_of(log(p), start, start + count - 1) == Seq::<RetainedMessage>::empty(),
+{
+    lemma_log_facts(p);
+    let segs = p.segments@;
+    assert(!seg_hits(segs, 0, start, end));
+    lemma_slice_window(log(p), first_retained(p), start, start + count - 1);
+}
+// the segments lo..hi are exactly those whose range intersects [start, end]: reading `count` messages from
+// max(start, first of them) out of their concatenation is the requested slice (start inside the log), or a run from the
+// earliest retained message that covers the requested range (start below the log)
+pub proof fn lemma_segment_path(p: &Partition, lo: int, hi: int, start: int, count: int, end: int)
+    requires
+        read_wf(p), p.segments@.len() > 0, count >= 1, start <= p.current_offset,
+        end == (if start + count - 1 > last_seg(p).current_offset { last_seg(p).current_offset as int } else { start + count - 1 }),
+        hit_range(p.segments@, start, end, lo, hi), lo < hi,
+        start >= first_retained(p) ==> p.segments@[lo].start_offset <= start,
+    ensures ({
+        let d = p.segments@.subrange(lo, hi); let dl = log_upto(d, hi - lo); let m = max_int(start, d[0].start_offset as int);
+        &&& segs_wf(d)
+        &&& start >= first_retained(p) ==> slice_of(dl, m, m + count - 1) == slice_of(log(p), start, start + count - 1)
+        &&& start < first_retained(p) ==> earliest_run(log(p), slice_of(dl, m, m + count - 1), start, count)
+    }),
+{
+    let segs = p.segments@; let n = segs.len() as int;
+    let d = segs.subrange(lo, hi); let dl = log_upto(d, hi - lo);
+    let l = log(p); let f = first_retained(p);
+    let m = max_int(start, d[0].start_offset as int);
+    let h = start + count - 1;
+    lemma_log_facts(p);
+    lemma_sub_wf(segs, lo, hi);
+    lemma_log_range(segs, lo, hi);
+    assert(d[0] == segs[lo]);
+    let slo = segs[lo].start_offset as int;
+    lemma_slice_window(dl, slo, m, m + count - 1);
+    lemma_slice_window(l, f, start, h);
+    // the first segment after the range starts above the requested end
+    if hi < n {
+        assert(!seg_hits(segs, hi, start, end));
+        assert(seg_hits(segs, lo, start, end));
+        if hi + 1 < n { assert(segs[lo + 1].start_offset <= segs[hi + 1].start_offset) by { if lo + 1 < hi + 1 { lemma_sorted_ij(segs, lo + 1, hi + 1); } } }
+        assert(segs[hi].start_offset > end);
+        assert(segs[hi].start_offset <= last_seg(p).start_offset) by { if hi < n - 1 { lemma_sorted_ij(segs, hi, n - 1); } }
+        assert(end == h);
+        assert(seg_end(segs, hi - 1) == segs[hi].start_offset);
+    }
+    if start >= f {
+        assert(m == start);
+        assert(window(dl, slo, m, m + count - 1) =~= window(l, f, start, h));
+    } else {
+        // below the earliest retained offset: the range of intersecting segments starts with the first segment
+        if lo > 0 {
+            assert(!seg_hits(segs, 0, start, end));
+            assert(seg_hits(segs, lo, start, end));
+            lemma_sorted_ij(segs, 0, lo);
+            if 1 < n { lemma_sorted_ij(segs, 0, 1); }
+        }
+        assert(lo == 0);
+        assert(m == f);
+        let r = window(dl, slo, m, m + count - 1);
+        assert(r =~= l.subrange(0, r.len() as int));
+    }
+}
+
+// label: C02.tier_independence
+// Two partition states with the same log (whatever the split between cache / unsaved buffer / segments / stored batches,
+// indexes cached or not) answer an offset poll inside the log identically — immediate from [C02.slice].
+pub proof fn c02_tier_independence(p1: &Partition, p2: &Partition, start: int, count: int, r1: Seq<RetainedMessage>, r2: Seq<RetainedMessage>)
+    requires
+        log(p1) == log(p2),
+        r1 == slice_of(log(p1), start, start + count - 1),      // [C02.slice] for p1
+        r2 == slice_of(log(p2), start, start + count - 1),      // [C02.slice] for p2
+    ensures r1 == r2,
+{}
